@@ -52,6 +52,8 @@ structure St where
   pfx : List UInt8 := []
   atStart : Bool := true
   failLines : List (List UInt8) := []
+  /-- distribution notes of the last oracle step (counted as STAT lines) -/
+  notes : List String := []
 
 def ttyIds (regs : List Driver) : List Nat := (regs.filter (·.kind == .tty)).map (·.id)
 
@@ -102,6 +104,7 @@ def chunked (w : Nat) : Nat → List String → List (List String)
 /-- the oracle: returns the new specification state and the failing (clause, feature) pairs -/
 def oracleStep (st : St) (op : List String) (obs : List String) : St × List (String × String) :=
   let fail (c : Bool) (cl ft : String) : List (String × String) := if c then [] else [(cl, ft)]
+  if obs = ["hang"] ∨ obs = ["panic"] then (st, [("log-exactly-once", obs.headD "")]) else
   match op with
   | ["reset", _] =>
     ({ st with pending := [], linked := none, ttyExp := [], failLines := [] }, [])
@@ -154,6 +157,14 @@ def oracleStep (st : St) (op : List String) (obs : List String) : St × List (St
       | some j => { st with pending := [], linked := t.map Driver.id,
                             ttyExp := ttyStream (st.pending ++ logOf (sorted.take j)) (logOf (sorted.drop j)) }
       | none => { st with pending := lastN cap (st.pending ++ logOf sorted) }
+    let st' := { st' with notes :=
+      match lc with
+      | some j =>
+        [if (sorted.findIdx? fun (d : Driver) => succ d && d.kind == Kind.console).getD 0 < (sorted.findIdx? fun (d : Driver) => succ d && d.kind == Kind.tty).getD 0
+           then "link_console_first" else "link_tty_first",
+         if (st.pending ++ logOf (sorted.take j)).length > cap then "link_prelog_gt_cap" else "link_prelog_le_cap",
+         if j < sorted.length then "link_before_last_driver" else "link_at_last_driver"]
+      | none => if (st.pending ++ logOf sorted).length > cap then ["unlinked_log_gt_cap"] else [] }
     let st' := { st' with failLines := (sorted.filter fun (d : Driver) => d.probeOk && d.initErr.isSome).map fun (d : Driver) => halPrefix d ++ tailOf d }
     -- terminals
     let ys := chunked 6 64 (sect ss "Y")
@@ -161,7 +172,7 @@ def oracleStep (st : St) (op : List String) (obs : List String) : St × List (St
       match y with
       | [id, att, state, _, _, rlen] =>
         if both ∧ id = tId then
-          fail (att = cId ∧ nat! state = stateActive) "linked-both-orders" (if (sorted.findIdx? (·.kind == .console)).getD 0 < (sorted.findIdx? (·.kind == .tty)).getD 0 then "console-first" else "tty-first") ++
+          fail (att = cId ∧ nat! state = stateActive) "linked-both-orders" (if (sorted.findIdx? fun (d : Driver) => succ d && d.kind == Kind.console).getD 0 < (sorted.findIdx? fun (d : Driver) => succ d && d.kind == Kind.tty).getD 0 then "console-first" else "tty-first") ++
           fail (nat! rlen = st'.ttyExp.length) "log-exactly-once" "length-after-detect"
         else
           fail (att = "-1" ∧ nat! state = stateInactive) "first-wins" "other-tty-untouched" ++
@@ -228,8 +239,9 @@ def processLine (st : St) (line : String) : IO St := do
       IO.println s!"MISMATCH case={st.caseId} op={opShort} model={mShort} impl={obsShort}"
       st := { st with stats := st.stats.bump "mismatch" }
     let wasLinked := st.linked.isSome
-    let (st2, fails) := oracleStep st op obs
+    let (st2, fails) := oracleStep { st with notes := [] } op obs
     st := st2
+    for k in st.notes do st := { st with stats := st.stats.bump k }
     if op.head? = some "end" then
       st := { st with stats := st.stats.bump (if wasLinked then "end_linked" else "end_unlinked") }
       if st.ttyExp.length > cap ∧ wasLinked then st := { st with stats := st.stats.bump "end_tty_gt_cap" }
